@@ -519,6 +519,15 @@ def job_factory(xpmtype):
     from experimaestro.commandline import CommandLine, CommandLineJob
 
     class VerifJob(CommandLineJob):
+        async def aio_run(self):
+            # In the multi-process model another process may act between the
+            # acquisition of the dependency locks (token file written) and the
+            # spawning of the job process (pid file written): one explicit
+            # preemption point, delivered like a helper-thread completion
+            if W is not None and W.fs_events:
+                await det_asyncThreadcheck("spawn", lambda: None)
+            return await super().aio_run()
+
         def prepare(self, overwrite=False):
             self.path.mkdir(parents=True, exist_ok=True)
             script = self.path / "job.py"
@@ -646,9 +655,8 @@ class FakeThreadingForTokens:
             w = W
             pid = w.current_pid
             tf = getattr(self.target, "__closure__", None)
-            # TokenFile.watch: the body blocks on the job lock and then on the
-            # process; modelled as one atomic event enabled when the job lock
-            # is free and no process of that job is running
+            # TokenFile.watch: the thread starts at once; its body blocks on the
+            # job lock and then on the watched process (see fire() below)
             cells = {}
             if tf:
                 for name, cell in zip(self.target.__code__.co_freevars, tf):
@@ -656,7 +664,7 @@ class FakeThreadingForTokens:
             lockpath = cells.get("lockpath")
             pidpath = cells.get("pidpath")
 
-            def enabled():
+            def unblocked():
                 if lockpath is not None and not w.lock_free(str(lockpath), pid):
                     return False
                 if pidpath is not None and pidpath.is_file():
@@ -669,18 +677,33 @@ class FakeThreadingForTokens:
                         pass
                 return True
 
+            loop = w.loops.get(pid)
+            label = ("watch", str(cells.get("self").path.name) if cells.get("self") is not None else "?")
+
             def fire():
+                # The thread body runs as far as it can: when it would block
+                # (job lock held by another process, watched process still
+                # running) the attempt is abandoned and the body is run again
+                # from the start once the blocking condition is gone - the
+                # part before a blocking point only reads.
                 old = w.current_pid
                 w.current_pid = pid
                 try:
                     self.target()
+                except WouldBlockLock:
+                    w.add(label, fire, unblocked, owner=loop)
+                except HarnessError as e:
+                    if "running process" in str(e):
+                        w.add(label, fire, unblocked, owner=loop)
+                    else:
+                        w.swallowed.append(("watch-thread", repr(e)))
                 except Exception as e:
                     w.swallowed.append(("watch-thread", repr(e)))
                 finally:
                     w.current_pid = old
 
-            loop = w.loops.get(pid)
-            w.add(("watch", str(cells.get("self").path.name) if cells.get("self") is not None else "?"), fire, enabled, owner=loop)
+            # first attempt: the thread starts at once (it is not synchronised with anything)
+            w.add(label, fire, None, owner=loop)
 
 
 class FakeIpcom:
